@@ -4,6 +4,31 @@ manifest is always valid)."""
 import json, sys
 
 CHECKS = {
+ "C09": dict(
+   text="Structural necessary conditions for weight/ownership/root following content, decided on every path of insert, delete, getBlockProof and markToCollect: a collapsed position is resolved before it is interpreted as another kind or as empty; the weight change of the recursive descent is folded into the branch weight and returned; every store to a hashed field is accompanied by dirty=true; the weight-ordered descent enters a child only under block <= child weight and subtracts skipped weights.",
+   note="Does not decide the numeric equalities themselves (total weight, ownership interval, root equality with an independent computation).",
+   technique="type-test exhaustiveness with an assumed-kind CFG walk, data-dependence and dominance checks on go/ssa",
+   ref="DESIGN.md section 5 C09"),
+ "C10": dict(
+   text="What the verifier recomputes and what it trusts, decided structurally: every success arm stores the verified child, sets dirty and recomputes the hash before returning, and VerifyBlockProof returns that recomputed hash; range checks guard every success; and 'navigated-by is a subset of committed-to' is checked per node kind. One known finding: the branch hash binds only the sum of child weights while the verifier navigates by each claimed weight (forgeable, witness recorded).",
+   note="Does not decide absence of other forgeries (a statement over all byte strings).",
+   technique="ordering/dominance checks, range-guard facts, pre-image vs decision-input agreement on go/ssa",
+   ref="DESIGN.md section 5 C10"),
+ "C11": dict(
+   text="Structural necessary conditions for recoverability and safe garbage collection: every saved kind is put into the batch before a success return and after its dirty children; nothing reachable from Commit deletes from storage; DeleteNodes deletes only the `deleted` set and stages tempDeleted afterwards; the created-hash handler must purge every field that later feeds deletes; only saving/decoding entry points may clear the dirty flag. Known findings: tempDeleted is not purged; Root/GetBlockProof/GetPath clear dirty (witnesses recorded).",
+   note="Does not decide that a reopened trie is observationally identical; batches are the atomic unit by the property's quantifier.",
+   technique="must-pass-through, call-graph effect confinement, provenance dataflow of deleted keys, field-set agreement on go/ssa",
+   ref="DESIGN.md section 5 C11"),
+ "C12": dict(
+   text="Thin structural check of the path export: every path through GetPath marks the requested keys (parallel or sequential loop) before assembling the export, for every root kind; writer and reader of the embedded shared-prefix child agree on field order, offsets and byte order; export and import walk in the same pre-order; markToCollect resolves collapsed positions.",
+   note="Does not decide root/weight equality after mirrored updates. Import-side hash checks are deliberately not armed (not necessary for honest exports).",
+   technique="path-avoidance feasibility check, writer/reader layout agreement on go/ssa",
+   ref="DESIGN.md section 5 C12"),
+ "C13": dict(
+   text="Agreement between the two rollback entry points and the checkpoint: both reset created/tempDeleted/deleted and delete exactly `created` through one batch; SaveRoot records (hash, weight) of the root and resets `created`, Rollback restores from exactly those; commit must record a node as created under the same hash-changed condition as it records the old hash deleted. Known finding: created is recorded unconditionally (witness recorded).",
+   note="Does not decide resolvability of every checkpoint node after rollback for every history.",
+   technique="sibling agreement (field-reset sets, guard conditions) on go/ssa",
+   ref="DESIGN.md section 5 C13"),
  "C17": dict(
    text="Error discipline and traversal structure behind missing-node detection and repair, decided on every path: at each of the trie's node lookups every error-path return yields a real error (never the benign 'not present' sentinel, never success); the branch arm of the traversal keeps visiting the remaining children, counts absent-node sentinels and reports under counter != 0; the sentinel set counted by the traversal equals the set the detector maps to 'missing'; nodes handed out by the donor store during repair are stored under their own hash without being modified.",
    note="Does not decide exactness of the reported key set for every removal subset. Path enumeration per function is capped at 4096 acyclic paths.",
